@@ -67,12 +67,22 @@ def required_keys():
     return _REQ[0]
 
 
+# A property whose statement presupposes another one is checked with that one's rules as well: the spans of C02 and
+# the equivalences of C20 are about the same match relation as C01 - a rule that bears on which strings match bears
+# on which spans are reported and on whether two spellings agree.
+IMPLIED = {"C02": ("C01",), "C20": ("C01",)}
+
+
+def scope(prop):
+    return {prop} | set(IMPLIED.get(prop, ()))
+
+
 def run_rules(ctx, prop, tier="quick"):
     """Runs every rule mapped to `prop`. Returns (instances, per_rule_stats)."""
     insts = []
     stats = {}
     for rid, r in sorted(RULES.items()):
-        if prop not in r.props:
+        if not (set(r.props) & scope(prop)):
             continue
         if r.tier == "thorough" and tier != "thorough":
             continue
@@ -85,7 +95,7 @@ def run_rules(ctx, prop, tier="quick"):
             i.rule = rid
             res = [i]
         n_all = len(res)
-        res = [i for i in res if i.props is None or prop in i.props]
+        res = [i for i in res if i.props is None or (set(i.props) & scope(prop))]
         n_ok = sum(1 for i in res if i.ok)
         n_bad = sum(1 for i in res if not i.ok)
         extra = []
